@@ -1,2 +1,30 @@
-(* placeholder, replaced by the string round-trip theorem *)
-Example C05_placeholder : True. Proof. exact I. Qed.
+(* Properties_C05.v — C05: the printed configuration parses back to the same configuration.
+   Lexical core proved here; the structural part (layout of sections/lists, re-parse = same tree,
+   print idempotence) is checked by the differential round-trip run against the library and the model. *)
+From Coq Require Import List Arith NArith Bool.
+From Coq.Strings Require Import Byte.
+From LC Require Import Bytes Flex LexAct LexRules Consts Lexer LexSpec LexLemmas DqProofs Conv Store Print RoundProofs.
+Import ListNotations.
+
+(* For EVERY string s without NUL (any length, any bytes: quotes, backslashes, '$', "${...}", braces,
+   comment markers, newlines), what cfg_print writes for a string value or a section title — quoted s —
+   followed by any text, is scanned by cfg_yylex (over the rule table regenerated from lexer.l) as ONE
+   string token whose value is exactly s; nothing is substituted, reported or echoed, and the line
+   counter advances by the newlines in s. *)
+Theorem C05_string_reads_back :
+  forall e s st p closed id rest others fuel,
+  Forall (fun c => c <> x00) s -> l_sc st = INITIAL ->
+  l_bufs st = (id, quoted (Some s) ++ rest) :: others -> (S (length s) < fuel)%nat ->
+  observe (yylex e fuel st p closed) =
+  {| ob_tok := TStr; ob_val := Some s; ob_bufs := (id, rest) :: others;
+     ob_sc := INITIAL; ob_line := p_line p + count_nl s; ob_file := p_file p; ob_diags := []; ob_echo := l_echo st;
+     ob_inc := l_inc st; ob_closed := closed; ob_oof := false |}.
+Proof. exact quoted_reads_back. Qed.
+Print Assumptions C05_string_reads_back.
+
+(* non-vacuity: a hostile string *)
+Example C05_string_example :
+  let s := [x61; x22; x5c; x24; x7b; x48; x7d; x0a; x2f; x2a] in
+  quoted (Some s) = [x22; x61; x5c; x22; x5c; x5c; x5c; x24; x7b; x48; x7d; x0a; x2f; x2a; x22] /\
+  Forall (fun c => c <> x00) s.
+Proof. split; [vm_compute; reflexivity|repeat constructor; discriminate]. Qed.
